@@ -22,7 +22,8 @@ model that the correspondence check validates against the real code — hence th
   place, loading the cells) → `set_nonzeros(ptr[n])` → fill from the loaded `ptr[i]`, and the copying one.
   Instances: `tentative_prolongation_defined` (aggregates with id < 0 give empty rows), `crs_copy_defined`,
   `crs_clone_defined`.
-* `spai0_defined` — `M = numa_vector(n, false)`, written for every `i`.
+* `fill_vec_defined` — the loop `for i < n: a[i] = f i` on a fresh allocation (the `numa_vector` constructors);
+  `spai0_defined` — `M = numa_vector(n, false)`, written for every `i`.
 * `sa_fill_marker_indep`, `sa_fill_rows_history_indep`, `sa_count_marker_indep`, `sa_marker_uninit_counterexample` —
   `smoothed_aggregation::transfer_operators`: the rows do not depend on what earlier rows (of the same thread) left in
   the marker array, nor on the thread-local start `-1`; a marker entry above the row's first position (what an
@@ -168,6 +169,20 @@ example : (tentativeCells (K := Rat) 4 2 #[0, -1, 1, 0] #[9, 9, 9, 9, 9] (fun k 
 
 example : erase (tentativeCells (K := Rat) 4 2 #[0, -1, 1, 0] #[9, 9, 9, 9, 9] (fun k => Array.replicate k 5)
     (fun k => Array.replicate k 7)).ptr = #[0, 1, 1, 2, 3] := by decide +kernel
+
+/-- **`for i < n: a[i] = f i` on a fresh uninitialised allocation** (`numa_vector(n)` with `init = true`,
+`numa_vector::resize(n)`, the copying constructors `numa_vector(const Vector&)`, `numa_vector(begin, end)`, and every
+`numa_vector(n, false)` that is then filled index by index): all cells written, values `f i`, whatever the heap held -/
+theorem fill_vec_defined {α : Type} (n : Nat) (f : Nat → α) (junk junk' : Array α) (hj : junk.size = n)
+    (hj' : junk'.size = n) :
+    allWritten (fillVec n f (alloc junk)) = true ∧
+      erase (fillVec n f (alloc junk)) = Array.ofFn (n := n) (fun i => f i.val) ∧
+      fillVec n f (alloc junk) = fillVec n f (alloc junk') := by
+  rw [fillVec_alloc n f junk hj, fillVec_alloc n f junk' hj']
+  exact ⟨allWritten_written _, erase_written _, rfl⟩
+
+example : erase (fillVec 3 (fun i => (2 * i : Nat)) (alloc #[7, 7, 7])) = #[0, 2, 4] :=
+  (fill_vec_defined 3 _ #[7, 7, 7] #[1, 2, 3] rfl rfl).2.1
 
 section spai0
 variable {K : Type} [Add K] [Mul K] [Zero K] [One K] [Div K] [DecidableEq K]
